@@ -324,6 +324,9 @@ class Execution(object):
             r_ret = None if r_ret is None else r_ret.copy()
         else:
             r_true = self.f(xc)
+            amp = self.cfg.get("noise_amp")
+            if amp:      # deterministic pseudo-noise indexed by the call number (so that repeated samples differ)
+                r_true = r_true * (1.0 + amp * np.cos(1.7 * k + 0.3 * np.arange(len(r_true))))
             r_ret = transform(letter, r_true, self.best_r)
             letter_used = letter
             if memo:
@@ -574,58 +577,63 @@ def _order(d):
 
 
 def explore_task(task):
-    """Worker: run the execution `prefix` of cfg and every execution with one more deviation below it."""
-    modname, cfg, plan, prefix, expect_fp, want_children = task
+    """Worker.  task = (modname, cfg, plan, prefix, children, parent_hashes, keep_hashes)
+    children is None  -> run the execution `prefix` itself;
+    children is a list -> run prefix+[d] for every d in it and check that everything before the new deviation is
+    byte-identical to the parent execution (parent_hashes)."""
+    modname, cfg, plan, prefix, children, parent_hashes, keep_hashes = task
     out = []
     try:
-        ex = run_one(modname, cfg, prefix)
-        summ = ex.summary()
-        if expect_fp is not None and summ["fp"] != expect_fp:
-            return {"error": "prefix execution is not reproducible across processes: cfg=%r devs=%r" % (cfg, prefix)}
-        root = summ
-        out.append(summ)
-        if want_children:
-            after = _order(prefix[-1]) if prefix else None
-            for d in _choice_points(summ, plan, after):
+        if children is None:
+            ex = run_one(modname, cfg, prefix)
+            summ = ex.summary()
+            out.append(summ)
+        else:
+            for d in children:
                 devs = list(prefix) + [d]
                 ch = run_one(modname, cfg, devs)
                 cs = ch.summary()
-                # prefix determinism: everything before the new deviation must be byte-identical to the parent
-                if d[0] == "obj":
+                if d[0] == "obj" and parent_hashes is not None:
                     kk = d[1] - 1
-                    if kk >= 1 and (len(cs["prefix_hashes"]) < kk or cs["prefix_hashes"][kk - 1] != root["prefix_hashes"][kk - 1]):
+                    if kk >= 1 and (len(cs["prefix_hashes"]) < kk or cs["prefix_hashes"][kk - 1] != parent_hashes[kk - 1]):
                         return {"error": "prefix divergence below %r at %r (cfg=%r)" % (prefix, d, cfg)}
-                cs["prefix_hashes"] = None
+                if not keep_hashes:
+                    cs["prefix_hashes"] = None
                 out.append(cs)
-        root_ph = root["prefix_hashes"]
-        root["prefix_hashes"] = None
-        return {"cfg": cfg, "prefix": prefix, "execs": out, "root_nph": len(root_ph)}
+        return {"cfg": cfg, "prefix": prefix, "execs": out}
     except HarnessError as e:
         return {"error": str(e)}
     except Exception:  # noqa: BLE001
         return {"error": "harness exception in worker: " + traceback.format_exc(limit=8) + " cfg=%r prefix=%r" % (cfg, prefix)}
 
 
-def explore(report, modname, cfg_plans, classify=None, nontrivial_floor=2, recheck=8, progress=True):
+CHUNK = 16
+
+
+def _chunks(lst, n):
+    for i in range(0, len(lst), n):
+        yield lst[i:i + n]
+
+
+def explore(report, modname, cfg_plans, classify=None, recheck=8):
     """Run the deviation-bounded exploration for all (cfg, plan) pairs and fill `report`.
 
     plan: {"depth": 0|1|2, "letters": [...], "ns_letters": [...], "rng_letters": [...], "kmax": int|None}
     """
     install()
     cfg_plans = list(cfg_plans)
-    tasks = [(modname, cfg, plan, [], None, plan.get("depth", 0) >= 1) for cfg, plan in cfg_plans]
     n_exec = 0
     sigs = {}
     tags = {}
     letters_used = {}
     samples = []
-    depth_done = {0: 0, 1: 0, 2: 0}
+    depth_done = {}
     viol_raw = []
-    second = []
     errors = []
     max_calls = 0
     n_choice = 0
     plans = {common.sha(cfg): plan for cfg, plan in cfg_plans}
+    level_out = {0: [], 1: []}   # summaries that may need children: (cfg, summ)
 
     def absorb(res, level):
         nonlocal n_exec, max_calls, n_choice
@@ -633,7 +641,8 @@ def explore(report, modname, cfg_plans, classify=None, nontrivial_floor=2, reche
             errors.append(res["error"])
             return
         cfg = res["cfg"]
-        for i, s in enumerate(res["execs"]):
+        plan = plans[common.sha(cfg)]
+        for s in res["execs"]:
             n_exec += 1
             d = len(s["devs"])
             depth_done[d] = depth_done.get(d, 0) + 1
@@ -646,31 +655,44 @@ def explore(report, modname, cfg_plans, classify=None, nontrivial_floor=2, reche
             n_choice += s["ncalls"] + s["n_ns"] + s["n_rng"]
             for clause, detail in s["viol"]:
                 viol_raw.append((clause, detail, cfg, s["devs"]))
-            if len(samples) < 3 and (i in (0, 1) or s["viol"]):
+            if len(samples) < 3 and (n_exec in (1, 2) or d > 0 or s["viol"]):
                 samples.append({"cfg": cfg, "devs": s["devs"], "outcome": list(s["sig"]), "ncalls": s["ncalls"]})
-            plan = plans[common.sha(cfg)]
-            if level == 1 and plan.get("depth", 0) >= 2 and i > 0:
-                second.append((modname, cfg, plan, s["devs"], s["fp"], True))
+            if plan.get("depth", 0) > level:
+                level_out[level].append((cfg, s))
 
-    for res in common.pool_map(explore_task, tasks):
-        absorb(res, 1)
-    if second and not errors:
-        for res in common.pool_map(explore_task, second):
-            # the first exec of a second-level task is the re-run prefix: do not count it twice
-            if "error" not in res:
-                res["execs"] = res["execs"][1:]
-            absorb(res, 2)
+    tasks = [(modname, cfg, plan, [], None, None, True) for cfg, plan in cfg_plans]
+    for res in common.pool_map(explore_task, tasks, chunksize=4 if len(tasks) > 2000 else 1):
+        absorb(res, 0)
+    for level in (0, 1):
+        if errors:
+            break
+        tasks = []
+        for cfg, s in level_out[level]:
+            plan = plans[common.sha(cfg)]
+            prefix = [tuple(d) for d in s["devs"]]
+            after = _order(prefix[-1]) if prefix else None
+            cps = _choice_points(s, plan, after)
+            for ch in _chunks(cps, CHUNK):
+                tasks.append((modname, cfg, plan, prefix, ch, s["prefix_hashes"], plan.get("depth", 0) > level + 1))
+        for res in common.pool_map(explore_task, tasks):
+            absorb(res, level + 1)
     if errors:
         raise HarnessError("; ".join(errors[:3]))
 
     # cross-process reproducibility: re-run a fixed subset in this (different) process and compare fingerprints
     n_re = 0
-    for cfg, plan in cfg_plans[:recheck]:
-        ex = run_one(modname, cfg, [])
-        res = explore_task((modname, cfg, plan, [], ex.fingerprint(), False))
-        if "error" in res:
-            raise HarnessError(res["error"])
-        n_re += 1
+    if recheck:
+        sub = cfg_plans[:: max(1, len(cfg_plans) // recheck)][:recheck]
+        got = {}
+        for res in common.pool_map(explore_task, [(modname, cfg, plan, [], None, None, False) for cfg, plan in sub]):
+            if "error" in res:
+                raise HarnessError(res["error"])
+            got[common.sha(res["cfg"])] = res["execs"][0]["fp"]
+        for cfg, plan in sub:
+            ex = run_one(modname, cfg, [])
+            if ex.fingerprint() != got[common.sha(cfg)]:
+                raise HarnessError("execution is not reproducible across processes: cfg=%r" % (cfg,))
+            n_re += 1
 
     # violations: confirm each distinct one by replaying it here before it is reported
     seen = set()
@@ -689,7 +711,7 @@ def explore(report, modname, cfg_plans, classify=None, nontrivial_floor=2, reche
     cov = report.coverage
     cov["evaluations"] = cov.get("evaluations", 0) + n_exec
     cov["configurations"] = cov.get("configurations", 0) + len(cfg_plans)
-    cov["executions_by_deviation_count"] = {str(k): v for k, v in depth_done.items() if v}
+    cov["executions_by_deviation_count"] = {str(k): v for k, v in sorted(depth_done.items()) if v}
     cov["distinct_outcomes"] = len(sigs)
     cov["outcomes"] = sorted(["%s x%d" % ("|".join(str(p) for p in k), v) for k, v in sigs.items()])[:60]
     cov["tags"] = dict(sorted(tags.items()))
